@@ -167,6 +167,7 @@ int __wrap_regexec(const regex_t *preg, const char *string, size_t nmatch, regma
     return r;
 }
 
+static int h_nopipe;
 static char *rewrite_names[64];
 static int nrewrite_names = 0;
 
@@ -211,7 +212,7 @@ static void load_conf(void) {
 
 static void h_case_begin(void) {
     opidx = 0;
-    verif_conf_file = NULL; verif_conf_loaded = 0; nrx = 0; nrewrite_names = 0;
+    verif_conf_file = NULL; verif_conf_loaded = 0; nrx = 0; nrewrite_names = 0; h_nopipe = 0;
     debug_init("verif");
     debug_set_level(getenv("VERIF_DEBUG") ? atoi(getenv("VERIF_DEBUG")) : 1);
 }
